@@ -615,6 +615,106 @@ def readonly_param(tu, f, p, allow_omp=True):
     return None
 
 
+def tbb_range_dispatch(ctx, tu, f, call, args, pn, pf, env, cfgname, inst, file, fnname):
+    """tbb::parallel_for(tbb::blocked_range<T>(0, n[, grain]), body): the range must be [0, count); the body must run the
+    canonical counting loop over [r.begin(), r.end()) of the sub-range it is given, calling the functor once per index."""
+    out = dict(und=[], problems=[], recognised={call['id']}, count=None)
+    und, probs = out['und'], out['problems']
+    ppath, fpath = param_path(pn), param_path(pf)
+    nct = clean_type(pn['ct'])
+    rng = leaf(tu, args[0])
+    if rng is not None and rng.get('kind') == 'DeclRefExpr':
+        vd = tu.node(rng.get('referencedDecl', {}).get('id'))
+        if vd is not None and vd.get('kind') == 'VarDecl' and tu.kids(vd):
+            rng = leaf(tu, tu.kids(vd)[0])
+    while rng is not None and rng.get('kind') in ('CXXFunctionalCastExpr', 'CXXBindTemporaryExpr') and tu.kids(rng):
+        rng = leaf(tu, tu.kids(rng)[-1])
+    if rng is None or rng.get('kind') not in ('CXXTemporaryObjectExpr', 'CXXConstructExpr') or \
+            not tu.sd(rng).get('q', '').endswith('blocked_range'):
+        und.append('the range argument of tbb::parallel_for is not a blocked_range built in place')
+        return out
+    ra = [a for a in tu.kids(rng) if a.get('kind') != 'CXXDefaultArgExpr']
+    m = re.match(r'void \((.*)\)$', tu.sd(rng).get('fty', ''))
+    rpt = [x.strip() for x in m.group(1).split(', ')] if m else []
+    if len(ra) < 2 or len(rpt) < 2 or irange(rpt[0]) is None:
+        und.append('blocked_range constructor `%s` is not the (begin, end[, grainsize]) form' % tu.sd(rng).get('fty'))
+        return out
+    first = const_value(tu, ra[0])
+    if first is None:
+        und.append('begin `%s` of the blocked_range is not a constant' % tu.show(ra[0]))
+    elif first != 0:
+        probs.append(('tbb-first', 'the blocked_range starts at %d instead of 0' % first, call))
+    ll = lin(tu, ra[1], env)
+    N = Lin.atom(('p', ppath))
+    if ll != N:
+        if (ll - N).is_const():
+            probs.append(('tbb-last', 'the blocked_range ends at `%r` instead of the count `%s`' % (ll, pn['name']), call))
+        else:
+            und.append('end `%s` of the blocked_range is not recognised as the count' % tu.show(ra[1]))
+    if len(ra) >= 3:
+        gs = const_value(tu, ra[2])
+        if gs is None or gs < 1:
+            und.append('grainsize `%s` of the blocked_range is not a positive constant' % tu.show(ra[2]))
+    out['count'] = (ra[1], clean_type(rpt[1]))
+    for ai in range(2, len(args)):
+        ct_ = clean_type(tu.sd(args[ai]).get('ct')) or ''
+        if 'partitioner' not in ct_:
+            und.append('unrecognised extra argument `%s` of tbb::parallel_for' % tu.show(args[ai]))
+    # ---- the body
+    opf, caps = callable_of(tu, args[1])
+    if opf is None or tu.cfg(opf) is None or len(opf['params']) != 1 or 'blocked_range<' not in opf['params'][0]['ct']:
+        und.append('the body argument of tbb::parallel_for is not a lambda / function object taking a blocked_range')
+        return out
+    og = tu.cfg(opf)
+    rpath = param_path(opf['params'][0])
+    fun_paths = {p_ for p_, src in caps.items() if src == fpath} or {fpath}
+    # r.begin() / r.end(): member calls on the range parameter
+    begin_l = end_l = None
+    for b, i, x in og.stmts():
+        if x.get('kind') == 'CXXMemberCallExpr':
+            s_, obj, a_ = tu.call_parts(x)
+            if obj is not None and access_path(tu, obj) == rpath and not a_:
+                nm = s_.get('q', '').split('::')[-1]
+                if nm == 'begin':
+                    begin_l = Lin.atom(('opaque', tu.show(x)))
+                elif nm == 'end':
+                    end_l = Lin.atom(('opaque', tu.show(x)))
+    if begin_l is None or end_l is None:
+        und.append('the range body does not use r.begin() / r.end()')
+        return out
+    loops = analyse_counting_loops(tu, opf, og, fun_paths, begin_l, end_l, allow_ne=True)
+    if len(loops) != 1:
+        und.append('the range body has %d loops (expected one counting loop over its sub-range)' % len(loops))
+        return out
+    li = loops[0]
+    und += ['range body: ' + u for u in li.undecided]
+    for k_, t_, n_ in ([] if li.undecided else li.problems):
+        probs.append(('tbb-body-' + k_, t_, n_))
+    if li.decl_stmt and not li.undecided:
+        ex, _ = count_paths(tu, og, {li.decl_stmt: 1}, None, 'P')
+        for k_, t_ in once_verdict(ex):
+            probs.append(('tbb-body-' + k_, 'a path through the range body does not run its sub-range exactly once', None))
+    # uses of the functor that build the body object (in the call itself or in the local that holds the body)
+    bl = leaf(tu, args[1])
+    holder = bl.get('referencedDecl', {}).get('id') if bl is not None and bl.get('kind') == 'DeclRefExpr' else None
+    for r in refs_to(tu, f, pf['id']):
+        if any(x.get('id') in (call['id'], holder) for x in ancestors(tu, r, 12)):
+            out['recognised'].add(r['id'])
+    # conversions: index -> functor parameter
+    if li.arg is not None and not li.undecided:
+        M = irange(nct)[1]
+        lf, ch = cast_chain(tu, li.arg)
+        check_chain(ctx, tu, inst, 'index to the functor', ch, 0, max(M - 1, 0), tu.loc(li.arg), file, fnname, cfgname)
+        ir = irange(li.itype)
+        if ir is not None and ir[1] < M:
+            probs.append(('loop-index-type', 'induction variable of type %s cannot reach counts up to %d of type %s' % (li.itype, M, nct),
+                          li.init_node))
+    if not und and not probs:
+        ctx.ok('R-C01-1', inst + ' range body', 'blocked_range(0, count) with a body that runs [r.begin(), r.end()) once per index',
+               tu.loc(call))
+    return out
+
+
 def cursor_dispatch(tu, f, call, args, fi, first, pn, pf, defs):
     """The `worker` dispatch form: tbb::parallel_for(0, W, body) where every body instance repeatedly takes
          begin = cursor.fetch_add(chunk)          (cursor: a std::atomic local of this call, initially 0)
@@ -815,7 +915,7 @@ def functor_uses(tu, f, fparam, recognised):
     bad = []
     for r in refs_to(tu, f, fparam['id']):
         n = r
-        okuse = False
+        okuse = r['id'] in recognised
         hops = 0
         while n is not None and hops < 60:
             if n.get('id') in recognised:
@@ -958,6 +1058,15 @@ def check_impl(ctx, tu, f, cfgname, chains, depth=0, signs_in=None):
             recognised.add(n['id'])
             m = re.match(r'void \((.*)\)$', s.get('fty', ''))
             ptypes = [x.strip() for x in m.group(1).split(', ')] if m else []
+            if len(args) >= 2 and ptypes and 'blocked_range<' in ptypes[0]:
+                # (range, body) form: TBB hands the body sub-ranges that exactly partition the range
+                rd = tbb_range_dispatch(ctx, tu, f, n, args, pn, pf, env, cfgname, inst, file, fnname)
+                und += rd['und']
+                problems += rd['problems']
+                recognised |= rd['recognised']
+                if rd['count'] is not None:
+                    count_args.append(('tbb', rd['count'][0], rd['count'][1], n))
+                continue
             if len(args) < 3 or len(ptypes) < 3 or clean_type(ptypes[0]) != clean_type(ptypes[1]) or irange(ptypes[0]) is None:
                 und.append('tbb::parallel_for overload `%s` is not the (first, last, function) form' % s.get('fty'))
                 continue
@@ -3540,6 +3649,53 @@ def check_pipe_protocol(ctx, tu):
                     if k_ < len(args):
                         cas_calls[n['id']] = (args[k_], result_var(n), pol)
 
+    def flag_summary(h):
+        """(index parameter number, polarity) if the private helper h only returns (m_Flags[param] == FLAG_CAN_WRITE)
+        [polarity True] or its negation: the writer's test that a slot is free"""
+        g2 = tu.cfg(h)
+        if g2.back_edges() or any(g2.where(c_) is not None for c_ in cas_calls):
+            return None
+        rets = []
+        for b, i, n in g2.stmts():
+            k = n.get('kind')
+            if k == 'ArraySubscriptExpr' and member_index(tu, n, 'm_Buffer') is not None:
+                return None
+            if k in ('BinaryOperator', 'CompoundAssignOperator') and n.get('opcode') in ('=', '+=', '-=') :
+                return None
+            if k == 'ReturnStmt':
+                if not tu.kids(n):
+                    return None
+                rets.append(tu.kids(n)[0])
+        if len(rets) != 1:
+            return None
+        c, pos = strip_not(tu, rets[0])
+        if c is None or c.get('kind') != 'BinaryOperator' or c.get('opcode') not in ('==', '!='):
+            return None
+        a, b = tu.kids(c)
+        for x, y in ((a, b), (b, a)):
+            if const_name(tu, y) == 'FLAG_CAN_WRITE':
+                ip = member_index(tu, x, 'm_Flags')
+                ks_ = [k for k, p_ in enumerate(h['params']) if param_path(p_) == ip]
+                if len(ks_) == 1:
+                    return ks_[0], (c['opcode'] == '==') == pos
+        return None
+    flag_calls = {}
+    helper_flag = {}
+    for h in members:
+        if h['q'].split('::')[-1] not in PUBLIC and h['id'] not in helper_claim:
+            fs_ = flag_summary(h)
+            if fs_ is not None:
+                helper_flag[h['id']] = fs_
+    for f in members:
+        for b, i, n in tu.cfg(f).stmts():
+            if n.get('kind') == 'CXXMemberCallExpr':
+                cf = tu.callee_fn(n)
+                if cf is not None and cf['id'] in helper_flag:
+                    k_, pol = helper_flag[cf['id']]
+                    s_, obj, args = tu.call_parts(n)
+                    if k_ < len(args):
+                        flag_calls[n['id']] = (args[k_], result_var(n), pol)
+
     def cas_idx(cid):
         ie = cas_calls[cid][0]
         r = member_index(tu, ie, 'm_Flags') if cas_calls[cid][2] is None else access_path(tu, ie)
@@ -3550,6 +3706,11 @@ def check_pipe_protocol(ctx, tu):
             continue
         n_inst += 1
         producer = name == 'WriterTryWriteFront'
+        # the writer's "slot is free" test helpers count as claims only in the writer
+        for k_ in flag_calls:
+            cas_calls.pop(k_, None)
+        if producer:
+            cas_calls.update(flag_calls)
         g = tu.cfg(f)
         inst = '[INTERNAL] LockLessMultiReadPipe::%s' % name
         loc = tu.fn_loc(f)
@@ -3684,6 +3845,13 @@ def check_pipe_protocol(ctx, tu):
                 lv = leaf(tu, tu.kids(n)[0])
                 if lv is not None and lv.get('kind') == 'CXXBoolLiteralExpr':
                     v = 1 if lv.get('value') else 0
+                if v is None and lv is not None and lv.get('kind') == 'DeclRefExpr':
+                    # the result variable of the (only) claim: true exactly on the paths on which the slot was claimed
+                    vid = lv.get('referencedDecl', {}).get('id')
+                    claims = [c_ for c_ in cas_calls.values() if c_[1] == vid and c_[2] is not None]
+                    wr = [w_ for w_ in find_writes(tu, g, set(g.blocks)) if w_[0] is not None and len(w_[0]) == 3 and w_[0][1] == vid]
+                    if len(claims) == 1 and not wr:
+                        v = 1 if (own is not None) == claims[0][2] else 0
                 if v is None:
                     und.add('return value `%s` is not a Boolean constant' % tu.show(tu.kids(n)[0]))
                 elif v:
@@ -4305,6 +4473,12 @@ def callable_of(tu, e):
     exactly one operator() built by aggregate initialisation / a member-wise constructor.  captures maps ('this', field) to
     the access path of the expression the field was initialised from (lambda captures need no mapping)."""
     n = leaf(tu, e)
+    if n is not None and n.get('kind') == 'DeclRefExpr':
+        # a local variable that holds the function object: its initialiser is the construction
+        vd = tu.node(n.get('referencedDecl', {}).get('id'))
+        if vd is not None and vd.get('kind') == 'VarDecl' and tu.enclosing_fn(vd) is not None and tu.kids(vd) and \
+                not (vd.get('type') or {}).get('qualType', '').rstrip().endswith('&'):
+            n = leaf(tu, tu.kids(vd)[0])
     hops = 0
     while n is not None and n.get('kind') in ('CXXFunctionalCastExpr', 'CXXBindTemporaryExpr', 'CXXTemporaryObjectExpr') \
             and tu.kids(n) and hops < 4 and n.get('kind') != 'CXXTemporaryObjectExpr':
